@@ -23,14 +23,23 @@ def _affine_in(expr, var):
   return None
 
 
-def _resolve_local(fn_node, name, before_line):
+def _resolve_local(fn_node, name, before_line, want_stmt=False):
   """single preceding definition `name = expr` in fn (by line order)."""
+  # positions are (line, column): statements of an inlined helper all sit on
+  # the line of the call, at increasing columns
+  if isinstance(before_line, tuple):
+    before = before_line
+  else:
+    before = (before_line, -1)
   best = None
   for st in ast.walk(fn_node):
     if isinstance(st, ast.Assign) and len(st.targets) == 1 and dotted(
-        st.targets[0]) == name and st.lineno < before_line:
-      if best is None or st.lineno > best.lineno:
+        st.targets[0]) == name and (st.lineno, st.col_offset) < before:
+      if best is None or (st.lineno, st.col_offset) > (best.lineno,
+                                                       best.col_offset):
         best = st
+  if want_stmt:
+    return best
   return best.value if best is not None else None
 
 
@@ -60,13 +69,16 @@ def size_form(fn_node, expr, line, depth=0):
 
 def container_axes(prog, fn, fn_node, name, line):
   """sizes of the leading index positions of list-of-tensors `name`."""
-  v = _resolve_local(fn_node, name, line)
+  st = _resolve_local(fn_node, name, line, want_stmt=True)
+  v = st.value if st is not None else None
   # skip symmetric re-orderings of the same list
   guard = 0
   while isinstance(v, ast.Call) and getattr(
       prog.resolve_call(fn, v), 'name', '') == \
       '_reverse_second_list_dimension' and guard < 4:
-    v = _resolve_local(fn_node, name, v.lineno)
+    st = _resolve_local(fn_node, name, (st.lineno, st.col_offset),
+                        want_stmt=True)
+    v = st.value if st is not None else None
     guard += 1
   if not isinstance(v, ast.Call):
     return None
@@ -182,7 +194,8 @@ def check_stencils(prog, res, fn, rule='A5', containers=('weights_layers',
     # (i) axis agreement
     bad_axis = None
     for base, pos, k, node in uses:
-      axes = container_axes(prog, fn, fn.node, base, node.lineno)
+      axes = container_axes(prog, fn, fn.node, base,
+                            (node.lineno, node.col_offset))
       if axes is None:
         raise AnalysisError('%s: cannot resolve the layout of %s' % (
             fn.loc(node), base))
